@@ -23,8 +23,16 @@ HexFirst == {"1", "7", "8", "9", "a", "A", "b", "B", "c", "C", "d", "D", "e", "E
 HexRest15 == {"000000000000000", "fffffffffffffff", "FFFFFFFFFFFFFFF", "bcdef0123456789", "BCDEF0123456789"}
 HexEdge == {"0x" \o d \o r : d \in HexFirst, r \in HexRest15} \cup {"0x" \o r : r \in HexRest15}
            \cup {"-0x" \o d \o "000000000000000" : d \in {"7", "8", "F", "f"}}
+\* binary and octal spellings at the 64-bit boundary (63 / 64 / 65 binary digits, 21 / 22 octal digits), both signs
+Rep(c, n) == [i \in 1..n |-> c]
+RECURSIVE Cat(_)
+Cat(q) == IF q = <<>> THEN "" ELSE q[1] \o Cat(Tail(q))
+BinOctEdge == LET ones(n) == Cat(Rep("1", n))  zeros(n) == Cat(Rep("0", n))  sevens(n) == Cat(Rep("7", n))
+                  mags == {"0b" \o ones(63), "0b" \o ones(64), "0b1" \o zeros(63), "0b1" \o zeros(64), "0b0" \o ones(63), "0b" \o ones(65),
+                           "0o" \o sevens(21), "0o1" \o zeros(21), "0o1" \o sevens(21), "0o2" \o zeros(21), "0o" \o sevens(22), "0o7" \o zeros(20)}
+              IN mags \cup {"-" \o m : m \in mags} \cup {"+" \o m : m \in mags}
 FlagSets == { {}, {"-S"}, {"-A"}, {"-O"} }      \* (the effect of combining inference flags is not documented)
 Sources == {"field", "jsonnumber", "jsonstring"}
-Emit == PrintT(ToJson([alphabet |-> SetToSeq(Alphabet), boundary |-> SetToSeq(Boundary \cup HexEdge),
+Emit == PrintT(ToJson([alphabet |-> SetToSeq(Alphabet), boundary |-> SetToSeq(Boundary \cup HexEdge \cup BinOctEdge),
                         flagsets |-> SetToSeq({SetToSeq(f) : f \in FlagSets}), sources |-> SetToSeq(Sources)]))
 =============================================================================
